@@ -4,6 +4,7 @@ use std::borrow::Cow;
 use std::cmp::{Ordering, max, min};
 
 use regex::Regex;
+use rustc_ast::token::Delimiter;
 use rustc_ast::visit;
 use rustc_ast::{ast, ptr};
 use rustc_span::{BytePos, DUMMY_SP, Ident, Span, symbol};
@@ -22,7 +23,7 @@ use crate::expr::{
     rewrite_let_else_block,
 };
 use crate::lists::{ListFormatting, Separator, definitive_tactic, itemize_list, write_list};
-use crate::macros::{MacroPosition, rewrite_macro};
+use crate::macros::{MacroPosition, macro_style, rewrite_macro};
 use crate::overflow;
 use crate::rewrite::{
     ExceedsMaxWidthError, Rewrite, RewriteContext, RewriteError, RewriteErrorExt, RewriteResult,
@@ -3498,7 +3499,14 @@ impl Rewrite for ast::ForeignItem {
                 rewrite_type_alias(ty_alias, &self.vis, context, shape.indent, kind, self.span)
             }
             ast::ForeignItemKind::MacCall(ref mac) => {
-                rewrite_macro(mac, context, shape, MacroPosition::Item)
+                // As in `FmtVisitor::visit_mac`: not every path of `rewrite_macro` adds the `;`.
+                let rw = rewrite_macro(mac, context, shape, MacroPosition::Item)?;
+                match macro_style(mac, context) {
+                    Delimiter::Bracket | Delimiter::Parenthesis if !rw.ends_with(';') => {
+                        Ok(format!("{rw};"))
+                    }
+                    _ => Ok(rw),
+                }
             }
         }?;
 
